@@ -7,9 +7,9 @@ import Nstd.Future.Ring
   has finished or is blocked).  Schedules are lists of thread ids; every interleaving of the real
   code under sequentially consistent atomics is a schedule of this system.
 
-  With `cfg.repaired = true` the model follows the REPAIRED code (fixes/future/000{1,2,3}-*.patch, fixes/sync/0001-*.patch:
+  With `cfg.repaired = true` the model follows the REPAIRED code (fixes/future/000{1,2,3,4}-*.patch, fixes/sync/0001-*.patch:
   `FastSignal::reset` re-signals; the retire path of `run` sets the enqueued signal; a terminating
-  worker sets it before leaving; `Signal::set` broadcasts before it unlocks); with `false` the original code (negation witnesses of the defects).
+  worker sets it before leaving; `~ThreadPool` queues `_threadCount` terminate jobs; `Signal::set` broadcasts before it unlocks); with `false` the original code (negation witnesses of the defects).
 
   Simulated POSIX layer (assumed semantics, identical to harness/future/sched.cpp): mutex
   (owner), condition variable (wait set; `broadcast` wakes all current waiters; budgeted spurious
@@ -507,7 +507,7 @@ def stepFrame (s : State) (t : Tid) (th : Thread) (fr : Frame) : State × List S
       | some _ => (go s [.dPush 0], [s!"E {t} clients-joined"])
   | .dPush i => match s.pool with
       | none => (withFault s "no pool", [])
-      | some p => if i < p.ctxs.length then (go s [.ring (.pushRead none), .dChk1 i], [])
+      | some p => if i < (if s.cfg.repaired then p.threadCount else p.ctxs.length) then (go s [.ring (.pushRead none), .dChk1 i], [])
         else (go s [if p.ctxs.isEmpty then .dFin else .dJoin 0], [])
   | .dChk1 i => if th.retB then (go s [.dSet i], []) else (go s [.fRst 1, .dPush2 i], [])
   | .dPush2 i => (go s [.ring (.pushRead none), .dChk2 i], [])
